@@ -1,7 +1,7 @@
 #!/bin/bash
 # usage: tools/runall.sh <seed> [tier]   — runs every claimed check once, prints one line per check
 seed="${1:-1}"; tier="${2:-quick}"
-cd /verif
+cd "$(dirname "$0")/.."
 for id in $(jq -r '.checks[].property_id' MANIFEST.json); do
   s=$(date +%s)
   out=$(VERIF_SEED=$seed ./check $id --tier $tier 2>&1); rc=$?
